@@ -30,8 +30,8 @@ const char* kBehaviours[] = { "orderly", "close-mid-request", "half-close", "rst
                               "silence", "partial-then-silence", "tmo", "tmoreply", "file", "file-abort", "async-abort", "never-close", "stream",
                               "silence-close-near-timeout", "silence-abort-near-timeout", "stall-beyond-timeout",
                               "abandon-at-once-close", "abandon-at-once-abort", "abandon-at-once-half-close",
-                              "tmo-then-close", "tmo-then-abort" };
-constexpr int kNumBeh = 23;
+                              "tmo-then-close", "tmo-then-abort", "stall-resume-trickle" };
+constexpr int kNumBeh = 24;
 
 Json gen(sim::Rng& rng, int tier)
 {
@@ -248,6 +248,24 @@ void run(const Json& plan)
                 st.push_back(httpw::send_step(req("/size/300000/" + tag)));
                 st.push_back(httpw::step(Step::Pause, (std::max(hto, bto) + 1700) * 1000000LL));
                 st.push_back(httpw::step(Step::ResumeReading));
+                st.push_back(httpw::step(Step::AwaitClose, 3000LL * 1000000LL));
+                st.push_back(httpw::step(Step::Close));
+            } else if (b == "stall-resume-trickle") {
+                // as above, but the moment the reader wakes up it also sends: the descriptor becomes writable (pending
+                // response, then the idle scan's 408 and the disconnection chained to it) and readable at the same time
+                std::string next = req("/echo/" + tag, actors::pattern(2, 50));
+                size_t nbytes = std::min<size_t>(next.size() - 1, 8 + static_cast<size_t>(c.num("cut_permille", 500)) % 40);
+                bool send_first = c.num("cut_permille", 0) % 2 == 1;
+                st.push_back(httpw::step(Step::StopReading));
+                st.push_back(httpw::send_step(req("/size/300000/" + tag)));
+                st.push_back(httpw::step(Step::Pause, (std::max(hto, bto) + 1700) * 1000000LL));
+                if (!send_first) st.push_back(httpw::step(Step::ResumeReading));
+                for (size_t k = 0; k < nbytes; ++k) {
+                    st.push_back(httpw::send_step(next.substr(k, 1)));
+                    if (send_first && k == 0) st.push_back(httpw::step(Step::ResumeReading));
+                    i64 gap = static_cast<i64>((static_cast<u64>(c.num("tag", 0)) * 2654435761u + k * 40503u) % 60) * 1000; // 0..59 us
+                    if (gap > 0) st.push_back(httpw::step(Step::Pause, gap));
+                }
                 st.push_back(httpw::step(Step::AwaitClose, 3000LL * 1000000LL));
                 st.push_back(httpw::step(Step::Close));
             } else if (b == "tmo-moved") {
